@@ -141,12 +141,17 @@ class SegmMachine(Machine):
                             relabel=sc['relabel'], progress_bar=False)
                 if isinstance(obj2, Raised):
                     raise Violation('raises', 'deblend_sources', repr(obj2))
+                obj_in = obj
                 obj = obj2
                 dmap = {int(k): [int(x) for x in v]
                         for k, v in obj._deblend_label_map.items()}
                 if dmap:
                     stats.probe('init_with_deblend_map')
         st.actors = [_Actor(obj, obj.data.copy(), dmap)]
+        if 'nlevels' in sc and 'obj_in' in locals():
+            # the image handed to deblend_sources stays in the family: label
+            # operations on the result are not operations on it
+            st.actors.append(_Actor(obj_in, obj_in.data.copy(), {}))
         st.nmut = 0
         st.pending_read = None
         return st
@@ -286,6 +291,21 @@ class SegmMachine(Machine):
             st.last_mask = menc
             args = {'mask': menc, 'partial_overlap': rng.chance(0.5),
                     'relabel': relabel}
+        elif name == 'set_data' and rng.chance(0.3):
+            # the caller edits the array the image holds in place (a block
+            # gets another label, a label disappears) and assigns the very
+            # same array object again
+            new = a.M.copy()
+            ny, nx = new.shape
+            y0, x0 = rng.randrange(ny), rng.randrange(nx)
+            lab = rng.pick([0, int(new.max()) + 1,
+                            int(rng.pick(list(_labels(new)) or [1]))])
+            if lab <= LABEL_CAP:
+                new[y0:y0 + rng.randint(1, 4), x0:x0 + rng.randint(1, 4)] = lab
+            labs = list(_labels(new))
+            if labs and rng.chance(0.4):
+                new[new == int(rng.pick(labs))] = 0
+            args = {'value': enc(new), 'inplace': True}
         elif name == 'set_data':
             r = rng.random()
             if r < 0.8:
@@ -525,8 +545,22 @@ class SegmMachine(Machine):
             kw['mask'] = mask_obj
         before = obj.data.copy()
         if name == 'set_data':
+            val, cur = kw['value'], obj.data
+            inplace = bool(
+                args.get('inplace') and verdict[0] == 'ok'
+                and val.shape == cur.shape and val.dtype == cur.dtype
+                and cur.flags.writeable
+                and not any(b is not a and np.shares_memory(b.obj.data, cur)
+                            for b in st.actors))
+            if inplace:
+                st.stats.probe('set_data_same_object_edited_in_place')
+
             def fn():
-                obj.data = kw['value'].copy()
+                if inplace:
+                    cur[...] = val
+                    obj.data = cur
+                else:
+                    obj.data = val.copy()
         else:
             def fn():
                 return getattr(obj, name)(**kw)
